@@ -24,7 +24,11 @@ def run(chk):
     # the whole in-process stack around one run (ServerStack.tla; the same spec every recorded execution above was validated
     # against): all its invariants and action properties on the intended design, the release-only-when-idle property
     # violated by the model of the code as it is (recorded findings)
-    sv.design(chk, "ServerStack", [chk.pick("design_quick", "design"), "design_cancel"], {"ascoded": "Act_ReleaseOnlyWhenTrulyIdle"})
+    # ... and two variants in which a request reaches a loaded run WITHOUT the reload lock, racing the idle release between
+    # its read and its abort: the cancel path before /repo fix e4696ff (design_cancel) and a lock-free fast path for sends
+    sv.design(chk, "ServerStack", [chk.pick("design_quick", "design")],
+              {"ascoded": "Act_ReleaseOnlyWhenTrulyIdle", "design_cancel": "Inv_ReleasedIsMarkedIdle",
+               "fastpath": "Inv_ReleasedIsMarkedIdle"})
     # the DBOS stack: lifecycle lock (Lifecycle.tla) and DBOSIdleReleaseDecorator (DbosIdleRelease.tla)
     from harness.checks import _dbos_idle
     _dbos_idle.run_c26_part(chk)
